@@ -272,6 +272,12 @@ func (n *simNet) classify(c *simConn) {
 		for _, f := range n.s.sc.Faults {
 			if (f.Req == kind && f.Nth == n.kindCount[kind]) || (f.Req == "any" && f.Nth == n.kindCount["any"]) {
 				c.fate = f.Fate
+				if f.Fate.Kind == "flip_req" && kind != "data" {
+					// only file data is protected by a checksum; a flipped byte in
+					// the JSON of a poll or a listing request is undetectable by
+					// design (names carry no checksum): the request is cut instead
+					c.fate = connFate{Kind: "cut_req_at", Arg: f.Fate.Arg}
+				}
 			}
 		}
 	}
